@@ -470,22 +470,30 @@ def closure_table(logic, issues):
 
 
 def identity_closure(logic):
-    "does ¬a=a close?  does ¬E!a close?  (and the positive / distinct forms must not)"
+    """does ¬c=c close?  does ¬E!c close?  (for several constants c; ALL must agree) — and the positive / distinct
+    forms must not close: distinct constants that share a letter (a, a1), a subscript (a1, b1) or neither are tried."""
     I, E = Predicate.Identity, Predicate.Existence
     mk = markers(logic)
     w = 0 if logic.Meta.modal else None
+    A1, A2, B1, D3 = Constant(0, 1), Constant(0, 2), Constant(1, 1), Constant(3, 3)
     res = {}
-    for key, s in [('selfIdNeg', ~I(CA, CA)), ('nonExist', ~E(CA)), ('selfId', I(CA, CA)),
-                   ('distinctNeg', ~I(CA, CB)), ('exist', E(CA))]:
+    forms = [('selfIdNeg', [~I(CA, CA), ~I(D3, D3), ~I(A1, A1)], all), ('nonExist', [~E(CA), ~E(D3)], all),
+             ('selfId', [I(CA, CA), I(D3, D3)], any),
+             ('distinctNeg', [~I(CA, CB), ~I(CB, CA), ~I(CA, A1), ~I(A1, CA), ~I(A1, A2), ~I(A1, B1), ~I(CA, D3)], any),
+             ('exist', [E(CA), E(A1), E(D3)], any)]
+    for key, sents, quant in forms:
         outs = []
-        for d in mk:
-            if d is False:
-                continue
-            tab = Tableau(logic, Argument(Z2, [Z1]))
-            tab[0].append(sdwnode(s, d, w))
-            tab.step()
-            outs.append(tab[0].closed)
-        res[key] = all(outs) if outs else False
+        for s in sents:
+            for d in mk:
+                if d is False:
+                    continue
+                tab = Tableau(logic, Argument(Z2, [Z1]))
+                tab[0].append(sdwnode(s, d, w))
+                tab.step()
+                outs.append(tab[0].closed)
+        res[key] = quant(outs) if outs else False
+        if key in ('selfIdNeg', 'nonExist') and outs and any(outs) and not all(outs):
+            res[key + '_irregular'] = True
     return res
 
 
